@@ -262,13 +262,13 @@ func (r *rig) validateReference(prog []op, rec []*spec, wantCanon string) {
 		}
 		args := make([]any, len(o.attrs))
 		for i, a := range o.attrs {
-			args[i] = a.built
+			args[i] = a.attr() // fresh values: never the attributes handed to zap (which must not be modified by it, but might be)
 		}
 		lg = lg.With(args...)
 	}
 	as := make([]slog.Attr, len(rec))
 	for i, a := range rec {
-		as[i] = a.built
+		as[i] = a.attr()
 	}
 	r.sbuf.Reset()
 	lg.LogAttrs(ctx, slog.LevelInfo, "m", as...)
